@@ -562,6 +562,9 @@ class SimAsyncBackend(httpcore.AsyncNetworkBackend):
 # ---------------------------------------------------------------------------------
 # sync facade (driven by hv.sched.Sched)
 # ---------------------------------------------------------------------------------
+DETACH_ON_START_TLS = True  # C18 switches this off: it compares the sync trace with the async one event for event
+
+
 class SimSyncStream(httpcore.NetworkStream):
     def __init__(self, net: Net, tr: Transport, layer: int) -> None:
         self.net = net
@@ -647,10 +650,9 @@ class SimSyncStream(httpcore.NetworkStream):
 
     def close(self) -> None:
         self.net.log("close.call", tr=self.tr.id, layer=self.layer)
-        if self.detached:
+        if self.detached and DETACH_ON_START_TLS:
             # as with the real synchronous back-end: ssl.wrap_socket() moved the descriptor into the TLS socket object and
             # left this one detached - closing it closes nothing
-            self.net.log("close.detached", tr=self.tr.id, layer=self.layer)
             return
         self.tr.do_close(CALL.get())
         self.net.sched.yield_point("net")
